@@ -62,6 +62,10 @@ class PPoint:
         return f"[{'|'.join(f.label() for f in self.fields)}]{{{o}}}{'S' if self.sort_keys else ''}{'+'.join(self.flags)}{'' if self.base == 'mixin' else '@plain'}"
 
 
+# aliases carry a backslash sequence and a quote: a key is data wherever the generator splices it (C16's concern, exercised
+# here on every by-alias path at no extra cost)
+ALIAS_PREFIX = "al\\t'"
+
 FLAGNAMES = {
     "N": "TO_DICT_ADD_OMIT_NONE_FLAG",
     "B": "TO_DICT_ADD_BY_ALIAS_FLAG",
@@ -149,7 +153,7 @@ def class_source(p: PPoint):
             kw.append(f"default={_default_src(f)}")
         md = {}
         if f.alias == "meta":
-            md["alias"] = f"al_{f.name}"
+            md["alias"] = ALIAS_PREFIX + f.name
         if f.omit:
             md["serialize"] = "omit"
         if md:
@@ -165,7 +169,7 @@ def class_source(p: PPoint):
         cfg.append("sort_keys = True")
     if p.flags:
         cfg.append(f"code_generation_options = [{', '.join(FLAGNAMES[x] for x in p.flags)}]")
-    al = {f.name: f"al_{f.name}" for f in p.fields if f.alias == "config"}
+    al = {f.name: ALIAS_PREFIX + f.name for f in p.fields if f.alias == "config"}
     if al:
         cfg.append(f"aliases = {al!r}")
     if cfg:
